@@ -28,7 +28,7 @@ import time
 VERIF = os.path.dirname(os.path.dirname(os.path.abspath(__file__)))
 REPO = os.environ.get("VERIF_REPO", "/repo")
 SRC = os.path.join(REPO, "src", "pandapipes")
-COQ = os.path.join(VERIF, "coq")
+COQ = os.environ.get("VERIF_COQ") or os.path.join(VERIF, "coq")
 SCRATCH_ROOT = os.path.join(VERIF, ".scratch")
 FORBIDDEN = re.compile(
     r"\b(Admitted|admit|Axiom|Axioms|Parameter|Parameters|Conjecture|Admit Obligations|"
@@ -300,13 +300,17 @@ class Ctx:
                     self.known_hits.append((k["id"], what))
                     print("KNOWN-FINDING: property=%s %s [%s] %s" % (self.pid, k["id"], k.get("what", ""), what))
                 return "known"
+        if signature in [v[0] for v in self.violations]:
+            return "violation"          # one replay file / VIOLATION line per distinct signature
+        if len(self.violations) >= 25:
+            self.extra["violations_not_listed"] = self.extra.get("violations_not_listed", 0) + 1
+            return "violation"
         obj = {"property": self.pid, "kind": "input", "seed": self.seed, "tier": self.tier,
                "signature": signature, "what": what, "replay": replay}
         p = self.replay_path(obj)
-        if signature not in [v[0] for v in self.violations]:
-            self.violations.append((signature, what, p))
-            print("VIOLATION property=%s replay=%s" % (self.pid, p))
-            print("  what: %s" % what)
+        self.violations.append((signature, what, p))
+        print("VIOLATION property=%s replay=%s" % (self.pid, p))
+        print("  what: %s" % what)
         return "violation"
 
     def broken(self, kind, name, excerpt=""):
